@@ -80,6 +80,10 @@ type Root struct {
 	NoNames []string // always empty (non-nil)
 	Col     Collide
 	Col2    Collide2
+	// Three: three entries with one and the same value (what a range over it renders does not depend on
+	// the iteration order as long as keys are not printed); NoMap: empty, not nil
+	Three map[string]string
+	NoMap map[string]string
 }
 
 func (r *Root) First() Item {
@@ -122,6 +126,7 @@ func GenData(t *sim.Tape, tag int) DataSpec {
 func (d DataSpec) BuildRoot() *Root {
 	r := &Root{Base: Base{BaseName: fmt.Sprintf("bn%d", d.Tag), Shared: 7}, Meta: &Meta{MetaName: fmt.Sprintf("mn%d", d.Tag)}, Title: d.Title, Count: d.Count, Flag: d.Flag,
 		One: map[string]int{"k": d.Tag}, Arr: [2]int{4, 2}, Any: "any", NoNames: []string{},
+		Three: map[string]string{"ka": "t", "kb": "t", "kc": "t"}, NoMap: map[string]string{},
 		Col:  Collide{Name: "outer", Inner: Inner{Name: "embedded", Only: "only"}},
 		Col2: Collide2{Name: "outer", Inner: Inner{Name: "embedded", Only: "only"}}}
 	for i := 0; i < d.NItems; i++ {
